@@ -78,7 +78,10 @@ const TEMPLATES: [&str; 11] = [
     "{% for i in (1..150) %}{% for j in (1..3) %}{% if j == 2 %}{% break %}{% endif %}{{ j }}{% endfor %}.{% endfor %}",
     "{% for i in (1..150) %}{% for j in (1..3) %}{% if j == 2 %}{% continue %}{% endif %}{{ j }}{% endfor %}{% if i == 149 %}{% break %}{% endif %},{% endfor %}",
 ];
-const PARSE_SOURCES: [&str; 4] = ["{{ a | upcase }}{% if a %}x{% endif %}", "{% if %}", "{% for i in (1..2) %}{{i}}", "plain {{ 'text' }}"];
+const PARSE_SOURCES: [&str; 6] = ["{{ a | upcase }}{% if a %}x{% endif %}", "{% if %}", "{% for i in (1..2) %}{{i}}", "plain {{ 'text' }}",
+    // errors deep inside nested blocks, and a valid nest: parsing keeps no state from one call to the next, on any thread
+    "{% if a %}{% for i in (1..2) %}{% capture c %}{% if %}{% endcapture %}{% endfor %}{% endif %}",
+    "{% if a %}{% for i in (1..2) %}{% case i %}{% when 1 %}x{% endcase %}{% endfor %}{% endif %}"];
 
 fn datas() -> Vec<liquid::Object> {
     vec![
@@ -186,7 +189,9 @@ pub fn main(args: &[String]) -> i32 {
     for run in 0..runs {
         let n = 2 + rng.below(15); // 2..16 threads
         let dwell = [0u64, 0, 50, 300, 1500][rng.below(5)];
-        let per_thread = 3 + rng.below(5);
+        // most runs are short; one in eight keeps its threads alive for a long sequence (state that accumulates per thread)
+        let long_run = rng.chance(1, 8);
+        let per_thread = if long_run { 150 } else { 3 + rng.below(5) };
         let log: Log = Arc::new(Mutex::new(Vec::new()));
         let policy = if rng.chance(1, 3) { "ondemand" } else { "lazy" };
         let sink_delay = [0u64, 0, 20, 200][rng.below(4)];
@@ -199,7 +204,7 @@ pub fn main(args: &[String]) -> i32 {
         for _ in 0..n {
             let mut plan = Vec::new();
             for _ in 0..per_thread {
-                if rng.chance(1, 6) {
+                if rng.chance(1, 6) || (long_run && rng.chance(3, 4)) {
                     plan.push(Op::Parse(rng.below(PARSE_SOURCES.len())));
                 } else {
                     plan.push(Op::Render(rng.below(TEMPLATES.len()), rng.below(data.len())));
